@@ -14,13 +14,18 @@ RULE = ("op histories (add through the registry, add to a named batch, flush, ca
         "batch.value()/error(), set_value/set_error on items and batches, is_flushed/is_cancelled/is_empty/is_computed, registry "
         "query) of length 0..30 over a harness BatchBase/BatchItemBase pair whose _flush executes a generated flush script per "
         "batch (set all / some / no items, item errors, raise Exception or BaseException after k actions, create requests while "
-        "flushing, double-set, cancel from inside the body) and over the built-in DebugBatch/DebugBatchItem; 70% mostly-valid "
+        "flushing, double-set, cancel from inside the body, re-entrant requests while the body runs: the body or an on_computed subscriber "
+        "of an item it has just set asks an item of the batch being flushed for value()/error(), the body calls self.flush() or "
+        "self.value()/error(), caught or propagating) and over the built-in DebugBatch/DebugBatchItem; 70% mostly-valid "
         "stream, 30% malformed stream (double flush, cancel/add/set after finish, unknown ids); thorough adds every op word of "
-        "length 3 over a 13-op alphabet x 7 scripts; distinct = different (flavour, scripts, op list); non-trivial = at least one "
+        "length 3 over a 13-op alphabet x 9 scripts; distinct = different (flavour, scripts, op list); non-trivial = at least one "
         "completing op on an existing batch/item and at least one op after it")
 TRUSTED = ["qcore.events.EventHook.safe_trigger / qcore.errors.reraise are exercised, not modelled separately",
            "the harness batch's _try_switch_active_batch follows DebugBatch's discipline (replace the registry entry iff it is self)"]
-ASSUMPTIONS = ["flush bodies do not re-enter flush()/value() of the batch being flushed or of its items (unbounded recursion in the code)",
+ASSUMPTIONS = ["requests made from inside a flush concern the batch being flushed and its own items; a body / subscriber asking an item of ANOTHER "
+               "pending batch (a nested flush of a different batch) and subscribers installed from outside the body are not generated",
+               "batch.value()/error() asked while the body runs is modelled with the repaired behaviour (BatchingError); the unrepaired code "
+               "runs the body again: known finding, on such a case only that site is reported",
                "_cancel, _try_switch_active_batch and on_computed subscribers do not raise (batching.py documents the second; a raising "
                "_cancel is outside the statement's quantifier, see docs/C11.md)",
                "debug options: default, or ENABLE_COMPLEX_ASSERTIONS off (a third of the histories); KEEP_DEPENDENCIES and DUMP_* off; one thread"]
@@ -43,12 +48,41 @@ def _oe(rng, base):
 
 
 # ------------------------------------------------------------------ flush scripts
+def _kd(rng):
+    return rng.choice(["KValue", "KValue", "KError"])
+
+
+def _bool(rng, p_true=0.7):
+    return "true" if rng.random() < p_true else "false"
+
+
+def gen_reentrant(rng):
+    """One re-entrant request made while the body runs: the body (or an on_computed subscriber of an item it
+    sets) asks an item of the batch being flushed for value()/error(), or the body calls self.flush()."""
+    q = rng.random()
+    if q < 0.40:
+        return {"ARead": [N(rng.randrange(0, 4)), _kd(rng), _bool(rng)]}
+    if q < 0.48:
+        return {"AReadBatch": [_kd(rng), _bool(rng)]}
+    if q < 0.85:
+        return {"ASetRead": [N(rng.randrange(0, 3)), _val(rng), N(rng.randrange(0, 4)), _kd(rng)]}
+    return {"AReflush": [_bool(rng)]}
+
+
 def gen_script(rng):
     r = rng.random()
-    if r < 0.22:
+    if r < 0.20:
         return ["ASetAll"]
-    if r < 0.30:
+    if r < 0.27:
         return []
+    if r < 0.39:
+        # a body that is otherwise well behaved, with re-entrant requests before / between its writes
+        acts = [gen_reentrant(rng) for _ in range(rng.choice([1, 1, 2]))]
+        tail = rng.choice([["ASetAll"], [], [{"ASet": [N(1), _val(rng)]}], [{"ASet": [N(0), _val(rng)]}, {"ASet": [N(1), _val(rng)]}],
+                           [{"ANew": [_val(rng)]}, "ASetAll"]])
+        if rng.random() < 0.3:
+            acts.insert(0, {"ASet": [N(rng.randrange(0, 2)), _val(rng)]})
+        return acts + tail
     acts = []
     n = rng.choice([1, 1, 2, 2, 3, 4, 6])
     for _ in range(n):
@@ -63,8 +97,10 @@ def gen_script(rng):
             acts.append({"ARaise": [rng.randrange(1, 60)]})
         elif q < 0.78:
             acts.append({"ABase": [rng.randrange(60, 90)]})
-        elif q < 0.93:
+        elif q < 0.88:
             acts.append({"ANew": [_val(rng)]})
+        elif q < 0.94:
+            acts.append(gen_reentrant(rng))
         else:
             acts.append({"ACancel": [_oe(rng, 400)]})
     return acts
@@ -229,6 +265,8 @@ SMALL_SCRIPTS = [
     [{"ANew": ["VNone"]}, "ASetAll", {"ANew": [{"VInt": [2]}]}],
     [{"ASetErr": [N(0), 301]}, {"ASet": [N(0), {"VInt": [1]}]}],
     [{"ACancel": ["None"]}, "ASetAll"],
+    [{"ASetRead": [N(0), {"VInt": [5]}, N(1), "KValue"]}, {"ARead": [N(1), "KError", "true"]}, {"ASet": [N(1), {"VInt": [6]}]}],
+    [{"ARead": [N(0), "KValue", "false"]}, "ASetAll"],
 ]
 SMALL_OPS = [
     {"OAdd": [{"VInt": [1]}]}, {"OAddTo": [N(0), "VNone"]}, {"OFlush": [N(0)]}, {"OFlush": [N(1)]},
@@ -292,6 +330,23 @@ CORPUS = [
 ]
 
 
+# ---- re-entrant requests while the flush body runs
+_S = lambda k, v: {"ASet": [N(k), {"VInt": [v]}]}
+# an on_computed subscriber of item 0 asks its sibling 1 (not yet set) for its value while the body is running:
+# refused with BatchingError, the body runs once, item 1 gets the value the body sets afterwards
+CORPUS.insert(0, _mk("H", [[{"ASetRead": [N(0), {"VInt": [5]}, N(1), "KValue"]}, _S(1, 7)]],
+                     [_A(1), _A(2), {"OItemValue": [N(0)]}, {"OItemValue": [N(1)]}, {"OFlush": [N(0)]}, {"OIsEmpty": [N(0)]}]))
+# the body itself asks its pending items for error()/value() and calls self.flush(), all caught, then sets every item
+CORPUS.insert(1, _mk("H", [[{"ARead": [N(1), "KError", "true"]}, {"ARead": [N(0), "KValue", "true"]}, {"AReflush": ["true"]}, "ASetAll"]],
+                     [_A(1), _A(2), {"OFlush": [N(0)]}, {"OItemValue": [N(0)]}, {"OItemError": [N(1)]}]))
+# the same request not caught by the body: the BatchingError becomes the flush error of the unset items
+CORPUS.insert(2, _mk("H", [[_S(0, 3), {"ARead": [N(1), "KValue", "false"]}, "ASetAll"]],
+                     [_A(1), _A(2), {"OItemError": [N(1)]}, {"OBatchError": [N(0)]}, {"OItemValue": [N(0)]}, {"OIsCancelled": [N(0)]}]))
+
+# the body asks the batch itself for error() between two writes (known finding on the unrepaired tree: the body runs again)
+CORPUS.insert(3, _mk("H", [[_S(0, 3), {"AReadBatch": ["KError", "true"]}, _S(1, 4)]],
+                     [_A(1), _A(2), {"OFlush": [N(0)]}, {"OItemValue": [N(1)]}, {"OBatchError": [N(0)]}]))
+
 # expensive assertions switched off: a body that sets some / none of its items still leaves no item pending
 CORPUS.append(_case("H", [[]], [_A(1), {"OFlush": [N(0)]}, {"OItemComputed": [N(0)]}, {"OItemError": [N(0)]}, {"OItemValue": [N(0)]},
                                 {"OBatchValue": [N(0)]}], {"corpus": True}, {"ENABLE_COMPLEX_ASSERTIONS": False}))
@@ -315,6 +370,7 @@ def _arg(o):
     return [] if isinstance(o, str) else next(iter(o.values()))
 
 
+REENTRANT = ("ARead", "AReflush", "ASetRead", "AReadBatch")
 COMPLETING_B = ("OFlush", "OCancel", "OBatchValue", "OBatchError", "OBatchSet", "OBatchSetErr")
 COMPLETING_I = ("OItemValue", "OItemError", "OItemSet", "OItemSetErr")
 
@@ -359,7 +415,8 @@ def compare(c, m, io):
 
 
 def distribution(cases):
-    d = {"flavour": {}, "oplen": {}, "malformed": 0, "exhaustive": 0, "ops": {}, "script_actions": {}, "scripts_per_case": {}}
+    d = {"flavour": {}, "oplen": {}, "malformed": 0, "exhaustive": 0, "ops": {}, "script_actions": {}, "scripts_per_case": {},
+         "cases_with_reentrant_request": 0}
     for c in cases:
         fl, sc, ops = c["args"]
         d["flavour"][fl] = d["flavour"].get(fl, 0) + 1
@@ -372,6 +429,8 @@ def distribution(cases):
         d["exhaustive"] += 1 if c.get("meta", {}).get("exhaustive") else 0
         for o in ops:
             d["ops"][_opname(o)] = d["ops"].get(_opname(o), 0) + 1
+        if any(_opname(a) in REENTRANT for s_ in sc for a in s_):
+            d["cases_with_reentrant_request"] += 1
         k = str(len(sc))
         d["scripts_per_case"][k] = d["scripts_per_case"].get(k, 0) + 1
         for s in sc:
@@ -416,6 +475,17 @@ def monitors(c, io, build):
             seen.add((clause, site))
             fs.append(dict(clause=clause, site="%s:%s" % (flavour, site), msg=msg))
 
+    # ---- value()/error() of the batch itself asked while its flush body runs must not run the body again.  When it
+    #      does, everything else the case shows (second run's writes, FutureIsAlreadyComputed outcomes, a cancelled
+    #      batch) is a consequence of that one nested run: it is reported once, at this site, and nothing else is
+    #      evaluated on the case.
+    for rd in io.get("reads", []):
+        if rd["what"].startswith("batch-") and rd["runs1"] != rd["runs0"]:
+            hit("flush-runs-body-once", "reentrant-%s:%s:body-ran-again" % (rd["via"], rd["what"]),
+                "%s() of batch %d was asked by its own flush body while that body was running: the body ran %d more time(s) nested inside the first" % (
+                    rd["what"].split("-")[1], rd["b"], rd["runs1"] - rd["runs0"]))
+    if fs:
+        return fs
     sets = {}
     set_at = []
     for i, o in io["sets"]:
@@ -611,6 +681,67 @@ def monitors(c, io, build):
             if "ENew" in e and e["ENew"][1] != bd["active"]:
                 hit("fresh-batch", "body:new-request-joined-%s" % ("flushing-batch" if e["ENew"][1] == b else "other-batch"),
                     "request %d created while batch %d was flushing joined batch %d, not the fresh batch %d" % (e["ENew"][0], b, e["ENew"][1], bd["active"]))
+    # ---- the flush body of a batch runs once: never entered again, in particular not nested inside itself by a
+    #      request made while it runs (by the body, or by an on_computed subscriber of an item it has just set)
+    for bd in io["bodies"]:
+        b = bd["b"]
+        if bd.get("depth", 0) > 0:
+            hit("flush-runs-body-once", "body:nested-run:%s" % (bd.get("during") or "unknown"),
+                "the flush body of batch %d was entered again (run %d) while it was already running (%s in progress): the body must run once" % (
+                    b, bd["run"], bd.get("during")))
+        elif bd.get("run", 1) > 1:
+            hit("flush-runs-body-once", "body:entered-again:%s" % (bd.get("during") or "later-op"),
+                "the flush body of batch %d was entered a second time (run %d)" % (b, bd["run"]))
+    runs_of = {}
+    for wr in io.get("writes", []):
+        runs_of.setdefault((wr["b"], wr["i"]), []).append(wr["run"])
+    for (b, i), rs_ in sorted(runs_of.items()):
+        if len(set(rs_)) > 1:
+            hit("flush-runs-body-once", "body:duplicate-write", "item %d of batch %d was written by %d different runs of the flush body (runs %s)" % (
+                i, b, len(set(rs_)), sorted(set(rs_))))
+    # ---- requests made while the body of the batch runs: a complete item answers with its outcome; a pending item
+    #      cannot be flushed (its batch's flush is in progress): the request is a second flush -> BatchingError, and
+    #      neither runs the body again nor completes anything
+    for rd in io.get("reads", []):
+        b, i, what, via, r = rd["b"], rd["i"], rd["what"], rd["via"], rd["r"]
+        tag = "reentrant-%s:%s" % (via, what)
+        inner = log[rd["nlog0"]:rd["at"]]
+        if rd["runs1"] != rd["runs0"]:
+            hit("flush-runs-body-once", "%s:body-ran-again" % tag,
+                "%s asked %s while the flush body of batch %d was running: the body ran %d more time(s)" % (
+                    via, ("item %d for its %s()" % (i, what)) if what != "flush" else "the batch to flush()", b, rd["runs1"] - rd["runs0"]))
+        if what.startswith("batch-"):
+            if rd["batch_out"] is not None:
+                want = _report("OBatchValue" if what == "batch-value" else "OBatchError", rd["batch_out"])
+                if r != want:
+                    hit("stable-outcome", "%s:%s" % (tag, _short(r)), "batch %d (finished, %s) asked for %s by its body gave %s" % (b, rd["batch_out"], what, r))
+            elif r != {"RRaise": [-5]}:
+                hit("second-flush", "%s:%s" % (tag, _short(r)), "%s of batch %d asked while its flush body runs gave %s instead of raising BatchingError" % (what, b, r))
+            if inner:
+                hit("second-flush", "%s:state-changed" % tag, "%s of batch %d asked while its flush body runs fired callbacks / hooks: %s" % (what, b, inner[:4]))
+            continue
+        if what == "flush":
+            if r != {"RRaise": [-5]}:
+                hit("second-flush", "%s:%s" % (tag, _short(r)), "flush() of batch %d called while its flush body runs gave %s instead of raising BatchingError" % (b, r))
+            if inner:
+                hit("second-flush", "%s:state-changed" % tag, "flush() of batch %d called while its flush body runs fired callbacks / hooks: %s" % (b, inner[:4]))
+            continue
+        if r == "RNotComputed":
+            hit("item-value-flushes", "%s:returned-not-computed-marker" % tag, "item %d of batch %d, asked while the body runs, returned although it is not complete" % (i, b))
+        if rd["item_out"] is not None:
+            want = _report("OItemValue" if what == "value" else "OItemError", rd["item_out"])
+            if r != want:
+                hit("stable-outcome", "%s:%s" % (tag, _short(r)), "item %d (complete, %s) asked for %s() while the body of batch %d runs gave %s" % (i, rd["item_out"], what, b, r))
+            if inner:
+                hit("stable-outcome", "%s:state-changed" % tag, "%s() of complete item %d fired callbacks / hooks: %s" % (what, i, inner[:4]))
+        elif not rd["batch_done"]:
+            if r != {"RRaise": [-5]}:
+                hit("second-flush", "%s:pending-sibling:%s" % (tag, _short(r)),
+                    "item %d of batch %d (not yet set) was asked for %s() while the flush body of that batch was running: got %s, not BatchingError "
+                    "(the flush is in progress, the batch cannot be flushed again)" % (i, b, what, r))
+            if inner or rd["item_done_after"]:
+                hit("second-flush", "%s:pending-sibling:state-changed" % tag,
+                    "asking pending item %d of batch %d while the body runs completed it / fired callbacks: %s" % (i, b, inner[:4]))
     for e in log:
         if any(v == "NotVisible" for v in next(iter(e.values()))):
             hit("announce-once", "outcome-not-visible-in-callback", "an on_computed callback ran before the outcome was visible: %s" % e)
